@@ -6,6 +6,10 @@ CHECKS = {
  # id: (category, level text, technique, level note)
  "C01": ("exploration", "Seeded generator over the quantifier's dimension table (creation method, value/type forms, getter types, scopes, literals incl. non-finite floats, alias tables from the collision space, 1-4 input files) x {normal, --stub}; the Go compiler, gofmt and a linked probe's start-up are the oracle. Held = every accepted configuration generated in this run compiled and initialised.", "generated-program monitoring: real binary -> go build/gofmt -> probe start marker", "trusts the Go toolchain as judge; symbols limited to the fixture universe"),
  "C02": ("exploration", "Each generated configuration is compiled, linked with instrumented fixture packages and executed; the object graph behind every service (constructor, argument order/types/identity, fields before calls, wither replacement, error cases) is compared with a reference container up to instance renaming.", "reference-model monitor over fixture event logs of the executed generated container", "trusts the reference interpreter engine/ref (written from docs) and the fixture recorder"),
+ "C04": ("exploration", "Seeded tag/decorator constellations (priorities with ties and extremes, several decorators per tag, all argument forms, 1-4 files) executed against the real runtime; injected slices, decorator order, payload and arguments compared with the reference container.", "reference-model monitor over decorator/tag events of the executed generated container", "trusts engine/ref and the fixture decorators"),
+ "C05": ("exploration", "Build-time half: every dependency structure on <=3 services x 5 edge kinds x 4^n scope assignments (13 924 configs; exhaustive in the thorough tier, seeded sample of 3 000 in quick) through the real binary, Scope diagnostics compared with the reference rule. Run-time half: Get/GetInContext/getter/GetTaggedBy histories on generated containers, instance identities compared with the reference identity model.", "exhaustive small-graph enumeration + identity monitor over instance serials across Get/GetInContext histories", "trusts engine/ref scope rule and identity model"),
+ "C13": ("exploration", "Full truth table getter x type form x must_getter x default_must_getter x meta names: reflected method set and signature strings of the generated type compared with runtime API (by reflection) ∪ expected getters; getters called reflectively; plus the collision space (every method/field of the embedded container, Must/InContext, equal getters) with near misses.", "reflection-based API monitor + reference truth table on executed generated containers", "trusts reflect's method sets; explicit must_getter:false without getter is not judged for acceptance"),
+ "C14": ("exploration", "Seeded hostile alias tables x six reference positions x written forms; the package each object/decorator/function/getter type really came from is observed at run time through self-identifying fixtures and compared with the reference whole-segment resolver; import block checked for duplicates and shared names.", "run-time provenance monitor (self-identifying fixture packages) + import block parse", "trusts engine/ref.Imports"),
  "C19": ("other", "Replays build -> regenerate -> rebuild -> regenerate for 3 generations with the real binary and compares bytes modulo the version line; a fixpoint over one fixed input needs nothing beyond executing it.", "fixpoint replay on the real binary, byte comparison", "trusts the Go toolchain and the Makefile's self-compile arguments"),
 }
 NOT_YET = "check under construction in this session (monitor not built yet); not a claim that the technique cannot apply"
